@@ -79,10 +79,28 @@ def roundtrip(case, mode):
     kw = {}
     if mode == "native":
         kw["inject_pulses"] = natives()
+    numpy_numbers = False
     if mode == "builder":
         from jaqalpaq.core.circuitbuilder import build
 
-        st_, c = guard(build, render.to_sexpr(prog), what="build")
+        sx = render.to_sexpr(prog)
+        if len(text) % 4 == 1:
+            # hand-made circuits get their numbers from computations: numpy floats are finite
+            # numbers like any other (gate arguments and let values)
+            import numpy
+
+            numpy_numbers = True
+
+            def conv(x, in_gate=False):
+                if isinstance(x, list):
+                    head = x[0] if x else None
+                    return [conv(v, in_gate or head in ("gate", "let")) for v in x]
+                if in_gate and isinstance(x, float):
+                    return numpy.float64(x)
+                return x
+
+            sx = conv(sx)
+        st_, c = guard(build, sx, what="build")
     else:
         st_, c = guard(parse, text, what="parse", **kw)
     if st_ == "err":
@@ -113,8 +131,10 @@ def roundtrip(case, mode):
         d2 = ex2.declarations()
     except extract.ExtractError as e:
         raise Violation("reparse-no-meaning", f"{e}\n--- generated:\n{t1}")
-    if not same_meaning(m1, m2, strict=True):
+    if not same_meaning(m1, m2, strict=not numpy_numbers):
         raise Violation("meaning-changed", f"{show(m1)}\n!=\n{show(m2)}\n--- generated:\n{t1}\n--- program:\n{text}")
+    if numpy_numbers:
+        d1 = dict(d1, lets=[(n_, float(v_) if isinstance(v_, float) else v_) for n_, v_ in d1["lets"]])
     if repr(d1) != repr(d2):
         raise Violation("declarations-changed", f"{d1}\n!=\n{d2}\n--- generated:\n{t1}")
     st_, t2 = guard(generate, c2, what="generate2")
